@@ -12,7 +12,7 @@ def hist_corr(rng, tier, prop):
     dis = [{'why': d['why'], 'solver': d['spec']['class'], 'params': d['spec'].get('params'), 'points': d['spec']['pts'], 't': d['spec']['t'],
             'detail': {k: v for k, v in d.items() if k not in ('spec', 'why')}} for d in r['diffs']]
     _last['dis'] = dis
-    sample = {'calls_in_history': r['n'], 'rounds': 2, 'poisoned_globals': 'ramsey, eexp, rmtv.timmes, suolson.timmes set to NaN before every call',
+    sample = {'calls_in_history': r['n'], 'rounds': 3, 'between_rounds': 'every object also used on another grid of the same shape, reversed points and another time', 'twins': 'second instance per class sharing parameters but one', 'poisoned_globals': 'ramsey, eexp, rmtv.timmes, suolson.timmes set to NaN before every call',
               'errors': r['errors'][:5]}
     return [], 0, dis, sample
 
